@@ -780,6 +780,7 @@ pub fn run(opts: Opts) -> i32 {
                     }
                 }
             }
+            "c05.failed_writes" => crate::c05::replay_failed_write(&report, &case, "C01"),
             "c01.failed_appends" => {
                 report.replay_by_re_enumeration(path);
                 failed_appends(&report);
@@ -852,6 +853,8 @@ pub fn run(opts: Opts) -> i32 {
             // the k-th log append inside one op fails; the numbering must survive it
             failed_appends(report);
         });
+        // every write call of a history fails once with ENOSPC (system-call shim); numbering clauses
+        scope.spawn(move || crate::c05::failed_write_sweep(report, "C01"));
         // several emitters of one task beside a thread append
         scope.spawn(move || {
             task_emitters(report, 2, tier.pick(2, 3));
